@@ -16,7 +16,7 @@
 (***************************************************************************)
 EXTENDS Integers, Sequences, FiniteSets, TLC
 
-CountText(n) == CASE n = 0 -> "0" [] n = 1 -> "1" [] n = 2 -> "2" [] n = 3 -> "3" [] OTHER -> "many"
+CountText(n) == ToString(n)      \* the decimal text of the count (TLC!ToString)
 
 RECURSIVE FlattenInst(_, _), FlattenEntry(_), FlattenEntries(_)
 FlattenInst(tag, inst) == <<<<tag, CountText(Len(inst))>>>> \o FlattenEntries(inst)
